@@ -82,6 +82,11 @@ def opCliResp (args : List SExp) : Option OpResult := do
                            else if ps.status ≠ 200 then [("C14", "failed-propstat-surfaced-as-data")] else []
               | none => [("C14", "value-from-nowhere")])
             | none => [("C14", "value-from-nowhere")])
+         | ["http", c] =>
+           -- a property under a failed propstat / in a failed response must be an error carrying THAT status
+           (match decodeProp r name with
+            | .http want => if c.toNat? = some want then [] else [("C14", s!"property-error-carries-{c}-instead-of-{want}")]
+            | .value _ => [("C14", "good-property-reported-as-error")])
          | _ => if failed && !(d'.startsWith "http") then [("C14", "failed-response-without-status")] else [])
       | _ => [("C14", s!"client-{got}")]
     pure ⟨impl, judge⟩
